@@ -89,6 +89,29 @@ def rule_c16(prog, rep):
     # ---- TB1
     lit, how, line = url_literal_set(prog, f_ue)
     rep.broken_if(lit is None, 'qurl_encode: %s' % how)
+    # every store that copies the input byte through unescaped sits in the literal arm of that one classification test
+    # (a second copy-through site under another condition lets reserved bytes out)
+    cls_if = None
+    for x in walk(f_ue.body):
+        if x.get('kind') == 'IfStmt' and x.get('_line') == line and len(children(x)) >= 3:
+            cls_if = x
+    if cls_if is not None:
+        then, els = children(cls_if)[1], children(cls_if)[2]
+        pct_else = any(y.get('kind') == 'CharacterLiteral' and y.get('value') == 37 for y in walk(els))
+        lit_arm, esc_arm = (then, els) if pct_else else (els, then)
+        inbyte = set()
+        for y in walk(lit_arm):
+            if y.get('kind') == 'BinaryOperator' and y.get('opcode') == '=' and strip_parens(children(y)[0]).get('kind') == 'UnaryOperator':
+                inbyte.add(canon(strip(children(y)[1])))
+        for y in walk(esc_arm):
+            if y.get('kind') == 'BinaryOperator' and y.get('opcode') == '=' and strip_parens(children(y)[0]).get('kind') == 'UnaryOperator' \
+                    and canon(strip(children(y)[1])) in inbyte:
+                rep.instance('TB1')
+                rep.oblige('TB1', False, {'second_copy_through': canon(y)[:60]})
+                rep.violation('TB1', f_ue, y.get('_line'), 'copy-through:%s' % canon(strip(children(y)[1]))[:20],
+                              '%s copies the input byte to the output unescaped outside the literal-set test: bytes that must be '
+                              'escaped (e.g. a %% that happens to be followed by two hex digits) get through, so decoding no longer '
+                              'returns the input' % canon(y)[:50])
     rep.notes['url_literal_predicate'] = how
     if lit is not None:
         bad = []
